@@ -68,7 +68,7 @@ def run(ctx):
     # enumeration answers must not come out of a half-filled memo (shared with C10)
     from sa import partial
     ctx.rule('J-PARTIAL', 'the notes of an extent are never served from a container that was filled between yields or one entry per query')
-    ctx.guard('J-PARTIAL', 'partial containers', partial.check_partial, ctx, w, 'J-PARTIAL', [NOTES, SEC, SEG])
+    ctx.guard('J-PARTIAL', 'partial containers', partial.check_partial, ctx, w, 'J-PARTIAL', [NOTES, SEC, SEG], ('iter_notes', 'NoteSection', 'NoteSegment'))
     ctx.floor('J-PARTIAL', 1)
 
 
